@@ -52,6 +52,21 @@ Definition pack (l : list N) : N := fold_left (fun acc d => acc * 16 + d)%%N l 1
 Definition mk p s r d := {| s_parser := p; s_splitting := s; s_primary_reads := r; s_default_role := d |}.
 Definition cfgs := [%s].
 Definition run (its : list item) := map (fun cfg => pack (map (obs cfg) (session_trace cfg (init_state cfg) its))) cfgs.
+Definition shc (o : option nat) : N := match o with None => 0%%N | Some n => N.of_nat (S n) end.
+Definition cfgs6 := filter (fun c => s_parser c && s_splitting c) cfgs.
+Definition runsh (sho : list shres) (ss : list stmt) :=
+  map (fun cfg => let r := infer_sh cfg quiet true (fun i => nth i sho ShNone) (init_state cfg) None ss in
+                  (rc (active_role (fst (fst r))), shc (snd (fst r)), snd r)) cfgs6.
+Definition wire_allowed (cfg : settings) (nsh : nat) (d : default_shard) (addrs : list addr) (st : rstate) (it : item) :=
+  match checkout_role cfg st it with
+  | None => None
+  | Some r => Some (rc r, match retain_shard nsh None d with None => [] | Some keep => map a_id (candidates r keep addrs) end)
+  end.
+Fixpoint wire_trace (cfg : settings) (nsh : nat) (d : default_shard) (addrs : list addr) (st : rstate) (its : list item) :=
+  match its with
+  | [] => []
+  | it :: r => wire_allowed cfg nsh d addrs st it :: wire_trace cfg nsh d addrs (client_route cfg st it) r
+  end.
 Definition cls (ms : list (list stmt)) := map (fun m => pack (map (fun s => if plain_read s then 1 else 0)%%N m)) ms.
 """ % "; ".join(coq_cfg(c) for c in CFGS)
 
@@ -232,6 +247,389 @@ def candidate_filter_tie(run, router):
     return bad == 0
 
 
+def sharded_tie(run, router, quick, proof_ok, samples, distinct):
+    """automatic_sharding_key set: messages over a sharded table whose statements land on different
+    shards, reads before/after writes, in every order.  Compared with Route.Model.infer_sh fed with the
+    per-statement outcome of the real infer_shard / infer_shard_on_write (learned from single-statement
+    runs): role, active shard and infer's Err flag; monitor: a non-plain-read => primary."""
+    rng = run.rng
+    st = G.sharded_statements()
+    cfgs6 = [c for c in CFGS if c[0] and c[1]]
+    n = 0
+    hist = {"messages": 0, "with_shard_error": 0, "error_before_a_write": 0, "panics": 0}
+    for ak in ("data.id", "*.id"):
+        base = settings_json((True, True, False, None), auto_key=True)
+        base["auto_key"] = ak
+        res = RL.run_router(router, [{"settings": base, "steps": [{"op": "route", "proto": "Q", "sql": t}]} for t, _, _ in st])
+        orc, one = {}, {}
+        for (t, l, k), r in zip(st, res):
+            o = r["out"][0]
+            if "panic" in o or o.get("parse") != "ok" or len(o["ast"]) != 1:
+                hist["panics"] += "panic" in o
+                continue
+            sh = o["state"]["shard"]
+            orc[t] = "ShErr" if str(o.get("infer", "")).startswith("err") else ("ShNone" if sh is None else "(ShSome %d)" % sh)
+            one[t] = (l, k, o["ast"][0])
+        by = {}
+        for t, (l, k, a) in one.items():
+            by.setdefault(k, []).append(t)
+        shard_of = lambda t: orc[t]
+        msgs = []
+        # two reads on different shards, then a write: every order (the write's role must not depend on the error)
+        reads = [t for t in by["read"] if orc[t].startswith("(ShSome")]
+        for _ in range(60 if quick else 600):
+            a = rng.choice(reads)
+            b = rng.choice([t for t in reads if orc[t] != orc[a]])
+            w = rng.choice(by["write"] + by["lock"])
+            for perm in itertools.permutations([a, b, w]):
+                msgs.append(list(perm))
+        for _ in range(120 if quick else 1500):
+            kinds = [rng.choice(["read", "read", "write", "lock", "start"]) for _ in range(rng.randint(1, 3))]
+            parts = [rng.choice(by[k]) for k in kinds]
+            for perm in set(itertools.permutations(parts)):
+                msgs.append(list(perm))
+        for t in one:
+            msgs.append([t])
+        seen, uniq = set(), []
+        for m in msgs:
+            if tuple(m) not in seen:
+                seen.add(tuple(m)); uniq.append(m)
+        msgs = uniq
+        cases = []
+        for mi, m in enumerate(msgs):
+            for ci, c in enumerate(cfgs6):
+                sj = settings_json(c, auto_key=True)
+                sj["auto_key"] = ak
+                protos = ["Q", "P"] if not quick else ["Q" if (mi + ci) % 2 else "P"]
+                for pr in protos:
+                    cases.append((mi, ci, {"settings": sj, "steps": [{"op": "route", "proto": pr, "sql": "; ".join(m)}]}))
+        res = RL.run_router(router, [c[2] for c in cases])
+        asts = {}
+        for (mi, ci, case), r in zip(cases, res):
+            o = r["out"][0]
+            if o.get("parse") == "ok":
+                asts.setdefault(mi, o["ast"])
+        exprs = ["runsh [%s] %s" % ("; ".join(orc[t] for t in m), coq_stmts(asts[mi])) for mi, m in enumerate(msgs) if mi in asts and len(asts[mi]) == len(m)]
+        idx = [mi for mi, m in enumerate(msgs) if mi in asts and len(asts[mi]) == len(m)]
+        vals = vlib.coq_eval("c05sh", PREAMBLE, exprs, shard=120) if proof_ok else None
+        model = {mi: vlib.parse_coq(v) for mi, v in zip(idx, vals)} if vals is not None else {}
+        for (mi, ci, case), r in zip(cases, res):
+            o = r["out"][0]
+            m = msgs[mi]
+            if "panic" in o:
+                hist["panics"] += 1
+                continue
+            if o.get("parse") != "ok":
+                continue
+            n += 1
+            run.cov["traces_validated_against_impl"] += 1
+            distinct.add(("sharded", ak, ci, case["steps"][0]["proto"], tuple(m)))
+            sh = o["state"]["shard"]
+            impl = (ROLE_CODE[o["state"]["role"]], 0 if sh is None else sh + 1, str(o.get("infer", "")).startswith("err"))
+            labs = [one[t][0] for t in m]
+            if ci == 0:
+                hist["messages"] += 1
+                if impl[2]:
+                    hist["with_shard_error"] += 1
+                    # an error recorded before a later write statement
+                    if any(one[t][1] in ("write", "lock") for t in m[1:]):
+                        hist["error_before_a_write"] += 1
+            if any(not G.plain_stmt(l) for l in labs) and impl[0] != 1:
+                run.violation("counterexample", "automatic_sharding_key=%s: message %r with a non-plain-read is routed to role %s (infer: %s)" % (ak, "; ".join(m), o["state"]["role"], o.get("infer")),
+                              {"input": case, "monitor": "write-not-primary", "impl": list(impl)})
+                return n
+            if mi in model:
+                mo = tuple(model[mi][ci])
+                mo = (mo[0], mo[1], bool(mo[2]))
+                if mo != impl:
+                    run.violation("tie-broken", "automatic_sharding_key=%s: message %r: model (role, shard+1, Err)=%s implementation=%s" % (ak, "; ".join(m), mo, impl),
+                                  {"correspondence": "Route/Model.v infer_sh vs QueryRouter::infer", "input": case, "oracle": [orc[t] for t in m], "model": list(mo), "impl": list(impl)}, found_input=False)
+                    return n
+        if ak == "data.id":
+            ex = next((m for m in msgs if len(m) == 3 and one[m[2]][1] == "write" and orc[m[0]] != orc[m[1]] and orc[m[0]].startswith("(ShSome") and orc[m[1]].startswith("(ShSome")), None)
+            if ex:
+                samples.append({"kind": "sharded-message", "sql": "; ".join(ex), "per_statement_shard_outcome": [orc[t] for t in ex]})
+    run.cov["sharded"] = hist
+    return n
+
+
+
+# ---------------------------------------------------------------------------------------------- wire leg
+WIRE_SHAPES = {
+    # name: list of shards, each a list of (backend, role)
+    "1x(P+R)": [[("p0", "primary"), ("r0", "replica")]],
+    "1x(P+2R)": [[("p0", "primary"), ("r0a", "replica"), ("r0b", "replica")]],
+    "2x(P+R)": [[("p0", "primary"), ("r0", "replica")], [("p1", "primary"), ("r1", "replica")]],
+    "2x(P+R|P+2R)": [[("p0", "primary"), ("r0", "replica")], [("p1", "primary"), ("r1a", "replica"), ("r1b", "replica")]],
+    "3x(P+R|P+2R|P)": [[("p0", "primary"), ("r0", "replica")], [("p1", "primary"), ("r1a", "replica"), ("r1b", "replica")], [("p2", "primary")]],
+    "1x(P)": [[("p0", "primary")]],           # a shard without a replica: a request for a replica must fail, not fall back
+}
+W_READS = ["SELECT a FROM t WHERE a = 1", "SELECT count(*) FROM u", "SELECT 1", "SELECT * FROM t JOIN u ON t.id = u.id", "WITH x AS (SELECT 1) SELECT * FROM x",
+           "SELECT 1; SELECT 2"]
+W_WRITES = ["INSERT INTO t (a) VALUES (1)", "UPDATE t SET a = 2 WHERE a = 1", "DELETE FROM t WHERE a = 2", "SELECT * FROM t FOR UPDATE", "SELECT * FROM (SELECT * FROM t FOR SHARE) s",
+            "WITH x AS (INSERT INTO t VALUES (1) RETURNING *) SELECT * FROM x", "CREATE TABLE n1 (id int)", "TRUNCATE t", "SELECT a INTO t2 FROM t",
+            "SELECT 1; INSERT INTO t (a) VALUES (3)", "SELECT * FROM t FOR UPDATE; SELECT 1", "UPDATE t SET a = 1; SELECT 1"]
+W_REJECTED = ["VACUUM t", "LOCK TABLE t"]       # sqlparser rejects them: the role is not recomputed
+
+
+def w_tagged(sql, tag):
+    """every statement of the message carries the tag of its transaction"""
+    return "; ".join("%s /*%s*/" % (p.strip(), tag) for p in sql.split(";"))
+
+
+def gen_wire_session(rng, t, shape, allow_begin):
+    """list of items: ("cmd", sql, coq) | ("txn", kind, first_sql, frames, tag, nonplain, known)"""
+    items = []
+    n = 0
+
+    def txn():
+        nonlocal n
+        tag = "w%d_%d" % (t, n)
+        n += 1
+        k = rng.random()
+        if k < 0.30:
+            sql = rng.choice(W_READS)
+            kind, nonplain = "simple", False
+        elif k < 0.58:
+            sql = rng.choice(W_WRITES)
+            kind, nonplain = "simple", True
+        elif k < 0.63:
+            sql = rng.choice(W_REJECTED)
+            kind, nonplain = "simple", None
+        elif k < 0.78 and allow_begin:
+            inner = [rng.choice(W_READS[:5] + W_WRITES[:3]) for _ in range(rng.randint(1, 2))]
+            frames = [[{"t": "Q", "sql": w_tagged(x, tag)}] for x in [rng.choice(["BEGIN", "START TRANSACTION", "BEGIN ISOLATION LEVEL SERIALIZABLE"])] + inner + [rng.choice(["COMMIT", "ROLLBACK"])]]
+            return ("txn", "begin", frames[0][0]["sql"], frames, tag, True, None)
+        elif k < 0.93:
+            nonplain = rng.random() < 0.55
+            sql = rng.choice([x for x in (W_WRITES if nonplain else W_READS) if ";" not in x])
+            q = w_tagged(sql, tag)
+            return ("txn", "batch", q, [[{"t": "P", "name": "", "sql": q}, {"t": "B", "portal": "", "name": ""}, {"t": "E", "portal": "", "max": 0}, {"t": "S"}]], tag, nonplain, None)
+        else:
+            w = w_tagged(rng.choice([x for x in W_WRITES if ";" not in x]), tag)
+            r = w_tagged(rng.choice([x for x in W_READS if ";" not in x]), tag)
+            fr = [{"t": "P", "name": "", "sql": w}, {"t": "B", "portal": "", "name": ""}, {"t": "E", "portal": "", "max": 0},
+                  {"t": "P", "name": "", "sql": r}, {"t": "B", "portal": "", "name": ""}, {"t": "E", "portal": "", "max": 0}, {"t": "S"}]
+            return ("txn", "batch2", (w, r), [fr], tag, True, F17)
+        q = w_tagged(sql, tag)
+        return ("txn", kind, q, [[{"t": "Q", "sql": q}]], tag, nonplain, None)
+
+    for _ in range(rng.randint(1, 3)):
+        items.append(txn())
+    for _ in range(rng.randint(2, 3)):
+        if rng.random() < 0.7:
+            v = rng.choice(["primary", "replica", "any", "primary", "replica", "auto", "default"])
+            items.append(("cmd", "SET SERVER ROLE TO '%s'" % v, "(ICmd (SetServerRole %s))" % ROLE_CMDS[v], ("role", v)))
+        else:
+            v = rng.choice(["on", "off", "default"])
+            items.append(("cmd", "SET PRIMARY READS TO '%s'" % v, "(ICmd (SetPrimaryReads %s))" % PR_CMDS[v], ("pr", v)))
+        for _ in range(rng.randint(3, 5)):      # several consecutive transactions after every SET
+            items.append(txn())
+    return items
+
+
+def wire_scenario(toml, backends, items):
+    steps = [{"op": "connect", "c": "c1", "params": {"user": "u", "database": "db"}, "password": "pw"}]
+    for it in items:
+        if it[0] == "cmd":
+            steps += [{"op": "send", "c": "c1", "msgs": [{"t": "Q", "sql": it[1]}]}, {"op": "recv", "c": "c1", "until": "Z", "timeout_ms": 4000}]
+        else:
+            for fr in it[3]:
+                steps += [{"op": "send", "c": "c1", "msgs": fr}, {"op": "recv", "c": "c1", "until": "Z", "timeout_ms": 4000}]
+    return {"backends": [{"name": b} for b in backends], "toml": toml, "steps": steps}
+
+
+def check_wire(run, router, quick, proof_ok, samples, distinct, recorded):
+    """pgcat in-process with mock backends that carry a role: the backend that executed each tagged
+    statement vs Route.Model (checkout_role of the session so far + candidates), and the monitor."""
+    from props import wirelib as W
+    ok, blog, bins = vlib.cargo_build(["wire"])
+    if not ok:
+        run.violation("tie-broken", "wire harness does not build against /repo", {"correspondence": "wire harness build", "log": blog[-3000:]}, found_input=False)
+        return 0
+    wire = bins["wire"]
+    rng = run.rng
+    # projections of the statement texts (the tag comments do not change the AST)
+    texts = sorted(set(W_READS + W_WRITES + W_REJECTED + ["BEGIN", "START TRANSACTION", "BEGIN ISOLATION LEVEL SERIALIZABLE"]))
+    base = settings_json((True, True, False, None))
+    res = RL.run_router(router, [{"settings": base, "steps": [{"op": "route", "proto": "Q", "sql": w_tagged(t, "w0_0")}]} for t in texts])
+    ast_of = {}
+    for t, r in zip(texts, res):
+        o = r["out"][0]
+        ast_of[t] = o["ast"] if o.get("parse") == "ok" else None
+
+    def ast_for(sql):
+        plain = "; ".join(re.sub(r"\s*/\*w\d+_\d+\*/", "", p).strip() for p in sql.split(";"))
+        return ast_of[plain]
+
+    nsess = 150 if quick else 1500
+    shapes = list(WIRE_SHAPES)
+    metas, scns = [], []
+    for t in range(nsess):
+        shape = shapes[t % len(shapes)] if t % 4 else rng.choice(shapes)
+        shards = WIRE_SHAPES[shape]
+        c = (rng.random() < 0.8, rng.random() < 0.8, rng.random() < 0.5, rng.choice([None, "primary", "replica"]))
+        if t % 5 == 0:
+            c = (True, True, c[2], c[3])
+        if not c[0]:
+            c = (False, False, c[2], c[3])      # config.rs rejects read/write splitting without the parser
+        dsh = rng.choice(["shard_0", "random", "random_healthy"])
+        toml = W.make_toml(pools={"db": {"opts": {"query_parser_enabled": c[0], "query_parser_read_write_splitting": c[1], "primary_reads_enabled": c[2],
+                                                  "default_role": c[3] or "any", "default_shard": dsh},
+                                         "users": [{"pool_size": 3}],
+                                         "shards": [{"servers": [[b, r] for b, r in sh]} for sh in shards]}})
+        items = gen_wire_session(rng, t, shape, allow_begin=(shape != "1x(P)"))
+        backends = [b for sh in shards for b, _ in sh]
+        metas.append({"shape": shape, "cfg": c, "default_shard": dsh, "items": items, "backends": backends,
+                      "role_of": {b: r for sh in shards for b, r in sh}, "shard_of": {b: i for i, sh in enumerate(shards) for b, _ in sh}})
+        scns.append(wire_scenario(toml, backends, items))
+    results = W.run_scenarios(wire, scns, timeout=90)
+
+    exprs = []
+    for m in metas:
+        its = []
+        for it in m["items"]:
+            if it[0] == "cmd":
+                its.append(it[2])
+            elif it[1] == "batch":
+                its.append("(IBatch [BParse 0 %s; BBind 0; BOther])" % coq_parsed(ast_for(it[2])))
+            elif it[1] == "batch2":
+                its.append("(IBatch [BParse 0 %s; BBind 0; BOther; BParse 1 %s; BBind 1; BOther])" % (coq_parsed(ast_for(it[2][0])), coq_parsed(ast_for(it[2][1]))))
+            else:
+                its.append("(ISimple %s)" % coq_parsed(ast_for(it[2])))
+        coqr = {"primary": "Primary", "replica": "Replica"}
+        addrs = "[%s]" % "; ".join("{| a_id := %d; a_shard := %d; a_role := %s |}" % (i, m["shard_of"][b], coqr[m["role_of"][b]]) for i, b in enumerate(m["backends"]))
+        d = "(DShard 0)" if m["default_shard"] == "shard_0" else "DRandom"
+        exprs.append("wire_trace %s %d %s %s (init_state %s) [%s]" % (coq_cfg(m["cfg"]), len(WIRE_SHAPES[m["shape"]]), d, addrs, coq_cfg(m["cfg"]), "; ".join(its)))
+    vals = vlib.coq_eval("c05w", PREAMBLE, exprs, shard=max(1, (len(exprs) + 15) // 16)) if proof_ok else None
+
+    n = 0
+    hist = {"sessions": 0, "transactions": 0, "commands": 0, "set_valued": 0, "no_candidate_errors": 0, "known_F17": 0, "by_shape": {}, "executed_on": {"primary": 0, "replica": 0},
+            "any_role_used": {"primary": 0, "replica": 0}, "transactions_after_explicit_role": 0}
+    f17_w = None
+    for si, (m, scn, res) in enumerate(zip(metas, scns, results)):
+        rp = {"kind_of_input": "wire", "input": {"shape": m["shape"], "cfg": m["cfg"], "default_shard": m["default_shard"], "role_of": m["role_of"],
+                                                  "items": [list(it[:3]) + [it[4]] if it[0] == "txn" else list(it[:2]) for it in m["items"]], "scenario": scn}}
+        if "harness_error" in res or "start_error" in res:
+            run.broken.append("wire harness failed: %s" % (res.get("harness_error") or res.get("start_error")))
+            continue
+        recvs = [e for e in res["events"] if e.get("ev") == "recv" and e.get("who") == "c1"]
+        nrecv = sum(1 if it[0] == "cmd" else len(it[3]) for it in m["items"])
+        if len(recvs) != nrecv or any(e.get("outcome") != "ok" for e in recvs):
+            run.violation("counterexample", "wire session %d (%s): a message got no complete reply: outcomes %s, task results %s" % (si, m["shape"], [e.get("outcome") for e in recvs][-4:], res.get("task_results")), rp)
+            return n
+        landed = {}          # tag -> list of (backend, conn)
+        for e in res["events"]:
+            if e.get("ev") == "msg" and e.get("tag") in ("Q", "E"):
+                sql = e["detail"].get("sql") or ""
+                if re.match(r"(?i)\s*SET (SERVER ROLE|PRIMARY READS)", sql):
+                    run.violation("counterexample", "custom command forwarded to a server: %r" % sql, rp)
+                    return n
+                for tg in set(re.findall(r"/\*(w\d+_\d+)\*/", sql)):
+                    landed.setdefault(tg, []).append((e["who"], e.get("conn")))
+        mv = vlib.parse_coq(vals[si]) if vals is not None else None
+        hist["sessions"] += 1
+        hist["by_shape"][m["shape"]] = hist["by_shape"].get(m["shape"], 0) + 1
+        # monitor state (model-free): what the session asked for so far
+        c = m["cfg"]
+        explicit, parser, preads = "none", c[0], c[2]
+        ri = 0
+        for ii, it in enumerate(m["items"]):
+            if it[0] == "cmd":
+                fr = recvs[ri]["frames"]; ri += 1
+                hist["commands"] += 1
+                if not any(f.get("t") == "C" for f in fr) or any(f.get("t") == "E" for f in fr):
+                    run.violation("counterexample", "wire session %d: %r is not acknowledged" % (si, it[1]), dict(rp, frames=fr))
+                    return n
+                k, v = it[3]
+                if k == "role":
+                    explicit = v if v in ("primary", "replica", "any") else "none"
+                    parser = {"auto": True, "default": c[0]}.get(v, False)
+                else:
+                    preads = {"on": True, "off": False, "default": c[2]}[v]
+                if mv is not None and mv[ii] is not None:
+                    run.violation("tie-broken", "wire session %d: the model takes %r for a routed message" % (si, it[1]), rp, found_input=False)
+                    return n
+                continue
+            _, kind, first, frames, tag, nonplain, knowncls = it
+            frs = [recvs[ri + j]["frames"] for j in range(len(frames))]
+            ri += len(frames)
+            hist["transactions"] += 1
+            n += 1
+            run.cov["traces_validated_against_impl"] += 1
+            where = landed.get(tag, [])
+            errored = any(f.get("t") == "E" for f in frs[0])
+            backs = sorted(set(where))
+            distinct.add(("wire", m["shape"], c, m["default_shard"], explicit, parser, preads, kind, str(first)))
+            desc = "wire session %d (%s, parser=%s splitting=%s primary_reads=%s default_role=%s default_shard=%s), transaction %s %r" % (
+                si, m["shape"], c[0], c[1], c[2], c[3], m["default_shard"], tag, first if isinstance(first, str) else list(first))
+            if len(backs) > 1:
+                run.violation("counterexample", "%s: the statements of one transaction ran on different server connections %s" % (desc, backs), dict(rp, landed=backs))
+                return n
+            be = backs[0][0] if backs else None
+            if be is not None:
+                hist["executed_on"][m["role_of"][be]] += 1
+            # ---- monitor: the property's own predicate
+            bad = None
+            if be is not None:
+                role = m["role_of"][be]
+                if explicit in ("primary", "replica"):
+                    hist["transactions_after_explicit_role"] += 1
+                    if role != explicit:
+                        bad = "SET SERVER ROLE TO '%s' is in force but the transaction ran on %s (%s)" % (explicit, be, role)
+                elif explicit == "any":
+                    hist["transactions_after_explicit_role"] += 1
+                elif parser and c[1] and nonplain is not None:
+                    if nonplain and role != "primary":
+                        bad = "a write / transaction ran on %s (%s)" % (be, role)
+                    elif not nonplain and not preads and role != "replica":
+                        bad = "plain reads with primary reads off ran on %s (%s)" % (be, role)
+            if bad:
+                if knowncls == F17 and explicit == "none":
+                    hist["known_F17"] += 1
+                    f17_w = f17_w or dict(rp, transaction=tag, backend=be)
+                else:
+                    run.violation("counterexample", "%s: %s" % (desc, bad), dict(rp, monitor=bad, backend=be, transaction=tag))
+                    return n
+            # ---- model: allowed servers for this checkout
+            if mv is not None:
+                al = mv[ii]
+                if al is None:
+                    run.violation("tie-broken", "%s: the model takes it for a custom command" % desc, rp, found_input=False)
+                    return n
+                want, ids = al[1]
+                allowed = [m["backends"][i] for i in ids]
+                # the property's own rule for the checkout, computed independently of Model.candidates: servers of the wanted
+                # role (any role if none is wanted) on the shard the pool falls back to when the client selected none
+                keep = 0 if (len(WIRE_SHAPES[m["shape"]]) == 1 or m["default_shard"] == "shard_0") else None
+                rule = [b for b in m["backends"] if (want == 0 or ROLE_CODE[m["role_of"][b]] == want) and (keep is None or m["shard_of"][b] == keep)]
+                if rule != allowed:
+                    run.violation("tie-broken", "%s: Route.Model candidates yields %s for wanted role code %s, the property's rule (role and shard filter) yields %s" % (desc, allowed, want, rule),
+                                  dict(rp, model_allowed=allowed, rule=rule), found_input=False)
+                    return n
+                if len(allowed) > 1:
+                    hist["set_valued"] += 1
+                    if be is not None and len(set(m["role_of"][b] for b in allowed)) > 1:
+                        hist["any_role_used"][m["role_of"][be]] += 1
+                if not allowed:
+                    hist["no_candidate_errors"] += 1
+                    if be is not None or not errored:
+                        run.violation("counterexample", "%s: no server of the requested role exists on the selected shard, yet the transaction ran on %s (error reply: %s)" % (desc, be, errored),
+                                      dict(rp, backend=be, model_allowed=allowed))
+                        return n
+                elif be is None or be not in allowed:
+                    run.violation("tie-broken" if not bad else "counterexample", "%s: ran on %s; Route.Model allows %s" % (desc, be, allowed), dict(rp, backend=be, transaction=tag, model_allowed=allowed, error_reply=errored), found_input=bool(bad))
+                    return n
+    if hist["known_F17"]:
+        recorded(F17, "wire: Parse(write) Bind Execute Parse(read) Bind Execute Sync ran the write on a replica [%d batches this run]" % hist["known_F17"], f17_w)
+    run.cov["wire"] = hist
+    if metas:
+        samples.append({"kind": "wire-session", "shape": metas[0]["shape"], "cfg(parser,splitting,primary_reads,default_role)": list(metas[0]["cfg"]), "default_shard": metas[0]["default_shard"],
+                        "items": [it[1] if it[0] == "cmd" else (it[2] if isinstance(it[2], str) else list(it[2])) for it in metas[0]["items"]][:8]})
+    return n
+
+
+
 def check(run):
     quick = run.tier == "quick"
     rng = run.rng
@@ -243,8 +641,10 @@ def check(run):
         "pool.get's candidate filter (role, shard, skip unusable) is transcribed in Route/Model.v and proved about; its role comparison (impl PartialEq<Option<Role>> for Role) is run on real Address values for every wanted role x every server list of length <= 4 and compared with Model.candidates; the rest of ConnectionPool::get needs servers and is exercised by C07's wire scenarios",
         "a role decision is used by client.rs only at the next checkout; in-transaction messages never re-route (read, client.rs:1175-1330)",
         "functions with side effects (SELECT nextval(..)) are plain reads for any SQL parser: outside the syntactic property",
+        "shard inference (infer_shard / infer_shard_on_write) is an oracle input of Route.Model.infer_sh; in the tie each statement's outcome is learned from the real functions (single-statement runs) and fed to the model",
+        "wire leg: mock PostgreSQL backends (harness/src/mockpg.rs) report which backend executed each tagged statement; the model's allowed set (checkout_role + candidates) must contain it; which allowed server is picked is the pooler's random choice (set-valued, counted)",
     ]
-    run.cov["trusted_base"] = ["coqc 8.16.1 kernel", "vm_compute", "harness/src/bin/router.rs", "harness/src/astproj.rs (AST projection)",
+    run.cov["trusted_base"] = ["coqc 8.16.1 kernel", "vm_compute", "harness/src/bin/router.rs", "harness/src/bin/wire.rs + mockpg.rs + props/wirelib.py (wire leg)", "harness/src/astproj.rs (AST projection)",
                                "props/sqlgen.py labels (cross-checked against the projection)", "props/c05.py comparison",
                                "Print Assumptions: Closed under the global context (all theorems)"]
     proof_ok, log = vlib.prove(run, COQ_FILES, "Route/Props.v")
@@ -548,12 +948,22 @@ def check(run):
             run.violation("tie-broken", "Route/Spec.v plain_read and the generator's classification disagree on %r" % hard[0]["sql"],
                           {"correspondence": "Spec.plain_read vs props/sqlgen.plain_stmt", "input": hard[0]}, found_input=False)
 
+    n_sharded = 0
+    if not run.violations:
+        n_sharded = sharded_tie(run, router, quick, proof_ok, samples, distinct)
+    evals += n_sharded
+    if not run.violations:
+        evals += check_wire(run, router, quick, proof_ok, samples, distinct, recorded)
     run.cov["evaluations"] = evals
     run.cov["distinct_nontrivial"] = len(distinct)
     run.cov["rule"] = ("statements: %d boundary forms (incl. every former witness) + %d non-query statements + grammar-generated queries (depth <= %d: joins, derived tables, scalar/EXISTS/IN sub-queries, CTEs read-only and "
                        "data-modifying, set operations, parenthesised arms, FOR UPDATE/SHARE/NO KEY UPDATE/KEY SHARE, INTO); messages of 1-3 statements in every order, empty messages, messages the parser rejects; "
                        "sessions: every message alone (Q or P framing), 72 command-pair boundary sessions, random sessions of 2-4 messages with SET SERVER ROLE / SET PRIMARY READS in between, Bind steps; "
-                       "each session under all 24 combinations of parser x splitting x primary_reads x default_role, a share again with automatic_sharding_key on. "
+                       "each session under all 24 combinations of parser x splitting x primary_reads x default_role, a share again with automatic_sharding_key on; "
+                       "sharded messages (automatic_sharding_key data.id and *.id, 3 shards): 1-3 statements over the sharded table in every order, reads on different shards before/after writes, key-column updates, "
+                       "compared on (role, shard, Err) with infer_sh fed with the real per-statement shard outcome; wire: sessions of 9-20 transactions (simple / multi-statement / BEGIN..COMMIT / Parse-Bind-Execute-Sync / "
+                       "two-Parse batches / parser-rejected) with SET SERVER ROLE / SET PRIMARY READS followed by 3-5 consecutive transactions, on 6 pool shapes (1-3 shards, primary + 0-2 replicas) x default_shard "
+                       "shard_0|random|random_healthy x default_role x parser/splitting/primary_reads. "
                        "distinct = distinct (configuration, framing, message, router state before the message)"
                        % (len(G.statements(__import__("random").Random(0), 0, 0)) - len(G.START) - len(G.OTHER), len(G.START) + len(G.OTHER), 2 if quick else 4))
     run.cov["samples"] = samples[:6] + [{"kind": "message", "sql": texts[i][:160], "label": [G.shape(l) for l in labels[i]], "accepted": asts[i] is not None}
@@ -578,6 +988,23 @@ def replay(run, path):
     ok, blog, bins = vlib.cargo_build(["router"])
     inp = r.get("input", {})
     print(json.dumps({k: v for k, v in r.items() if k != "ast"}, indent=1)[:3000])
+    if "scenario" in inp:
+        from props import wirelib as W
+        ok, blog, wb = vlib.cargo_build(["wire"])
+        res = W.run_scenario(wb["wire"], inp["scenario"])
+        landed = {}
+        for e in res.get("events", []):
+            if e.get("ev") == "msg" and e.get("tag") in ("Q", "E"):
+                for tg in set(re.findall(r"/\*(w\d+_\d+)\*/", e["detail"].get("sql") or "")):
+                    landed.setdefault(tg, set()).add(e["who"])
+        print("replay (wire): transaction -> backend(role):", {t: ["%s(%s)" % (b, inp["role_of"].get(b)) for b in sorted(bs)] for t, bs in sorted(landed.items())})
+        tg, be = r.get("transaction"), r.get("backend")
+        if tg and be:
+            now = sorted(landed.get(tg, []))
+            same = bool(now) and all(inp["role_of"].get(b) == inp["role_of"].get(be) for b in now)
+            print("replay: transaction %s ran on %s then, on %s now -> %s" % (tg, be, now, "same role again" if same else "differs (the pooler picks at random among allowed servers)"))
+            return 1 if same else 0
+        return 0
     if "steps" not in inp:
         return 0
     (res,) = RL.run_router(bins["router"], [{"settings": inp["settings"], "steps": inp["steps"]}])
